@@ -12,965 +12,733 @@ Definition show_fres (r : fres) : string :=
   end.
 Definition check (rs : list rune) : string := digest (show_fres (format_res rs)).
 Definition full (rs : list rune) : string := show_fres (format_res rs).
-Eval vm_compute in ("<<<M1787>>>" ++ check (runes_of_ascii "
-// top
-
-options 
-	// c0
-    { // c1
-LittleEndian // c2
-
-= false 	 // c4
-  ; 
-ArrayPrefixLenType=  
-  // c7
-		u8
-; 
-FixedStringPadFromLeft 	 // c10a
-// c10b
-  = // c11
-      true // c12
-	; 
-    // c13
-
-FixedStringPadChar  // c14
-
-  =	// c15
-	'0'// c16
-    ; // c17
-  } 
-    // c18
-
-  packet
-
-Heartbeat 
-  // c20
-  	{
-
-    string  // c22a
-// c22b
-  lastPx
-
-, 
-    // c24
-		uint8 // c25a
-// c25b
-  	Qty// c26a
-    // c26b
-,
-
-    // c27
-	i64 Acct// c29
-, // c30a
-// c30b
-
-char[// c31
-    	4  // c32a
-	// c32b
-  ]
-	Ref
-    , 	 // c35a
-		// c35b
-  }	// c36a
-
-// c36b
-	packet
-    // c37
-	Fill 	 // c38
-	{// c39a
-  // c39b
-  uint8  // c40a
-    // c40b
-  Ref
-	,	Heartbeat	// c43
-
-	, 	 // c44a
-	// c44b
-
-	f32  OrderId 
-,  // c47a
-	// c47b
-	  repeat
-	f32 // c49
-  x
-    ,  // c51
-  } 
-root 
-packet	// c54a
-    // c54b
-    Order 	 // c55a
-    	// c55b
-  { 	 // c56a
-// c56b
-
-	zchar[// c57a
-  	// c57b
-  2// c58
-] 
-      // c59
-
-OrderId // c60a
-      // c60b
-  , 
-zchar[ 
-    // c62
-	2  // c63a
-
-  // c63b
-      ] // c64
-      Acct 	 // c65a
-// c65b
-	,
-
-zchar[  // c67
-  1 // c68a
-    // c68b
-    	]
-    // c69
-
-Note// c70
-  , // c71a
-	// c71b
-	zchar[ 
-
-    // c72
-	9// c73
-	] // c74a
-	// c74b
-      Qty 	 // c75a
-// c75b
-		,// c76
-	string
-// c77
-	price ,
-
-// c79
-  string  // c80
-
-tag7
-// c81
-    , 
-        // c82
-    	u32 	 // c83
-  x  // c84
-  	, 
-        // c85
-  match// c86a
-    	// c86b
-
-	x	// c87a
-  	// c87b
-    	as 
-
-// c88
-	Body
-
-{  
-  // c90
-
-123  // c91
-:
-Fill 
-    // c93
-	,  112  // c95
-:
-	Heartbeat	// c97
-
-,
-}  // c99a
-
-// c99b
-,// c100a
-  // c100b
-    	u32  // c101a
-	// c101b
-      seqNo// c102
-
-@calculatedFrom(// c103
-    ""CRC32""// c104a
-// c104b
-  ) 	 // c105
-    ,
-	    // c106
-} 	 // c107a
-	// c107b
-")).
-Eval vm_compute in ("<<<M385>>>" ++ check (runes_of_ascii "options {
-    StringPrefixLenType = u16;
-    ArrayPrefixLenType = u16;
-}
-
-packet SampleBinary {
-    uint16 MsgType `" ++ [28040; 24687; 31867; 22411]%N ++ runes_of_ascii "`,
-    u16 BodyLenght @lengthOf(Body) `" ++ [28040; 24687; 20307; 38271; 24230]%N ++ runes_of_ascii "`,
-    match MsgType as Body {
-        1 : Logon,
-        2 : Logout,
-        3 : Heartbeat,
-        4 : RiskControlRequest,
-        5 : RiskControlResponse,
+Eval vm_compute in ("<<<M1793>>>" ++ check (runes_of_ascii "packet metadata {
+    repeat f64 Foo,
+    repeat Logon f32a `
+        `,
+    @calculatedFrom(""1"")
+    repeat uint8 calculatedFrom `u8 x,`,
+    char[] packetx,// packet A { u8 x, }
+    @calculatedFrom(""abc"")
+    Pad @lengthOf(msg_type) `line1
+        line2`,
+    @rightPad(' ')
+    tag `" ++ [233]%N ++ runes_of_ascii "`,
+    @tag(10)
+    u8x @calculatedFrom(""CRC32""),
+    match metadata as msg_type {
+        [0123456789, ""\n""] : options1,
+        ""\n"" : float,
     },
-    @calculatedFrom(""CRC32"")
-    u32 Ckecksum `" ++ [26657; 39564; 21644]%N ++ runes_of_ascii "`,
 }
 
-packet Logon {
-    @leftPad('0')
-    char[10] UserName `" ++ [29992; 25143; 21517]%N ++ runes_of_ascii "`,
-    string Password `" ++ [23494; 30721]%N ++ runes_of_ascii "`,
-    uint64 ClientId `" ++ [23458; 25143; 31471]%N ++ runes_of_ascii "ID`,
-    u16 HeartbeatInterval `" ++ [24515; 36339; 38388; 38548]%N ++ runes_of_ascii "`,
-}
-
-packet Logout {
+packet MetaDataX {
+    string string_ `doc`,
     @rightPad('0')
-    char[10] UserName `" ++ [29992; 25143; 21517]%N ++ runes_of_ascii "`,
-    uint64 ClientId `" ++ [23458; 25143; 31471]%N ++ runes_of_ascii "ID`,
+    zchar[00] zchar `a\`,
 }
 
-packet Heartbeat {
-}
+options {
+    leftPad = 0
+    float = 4294967296;
+}// `tick` ""quote"" 'q'
 
-packet RiskControlRequest {
-    string UniqueOrderId `" ++ [21807; 19968; 35746; 21333; 21495]%N ++ runes_of_ascii "`,
-    char[16] ClOrdID `" ++ [23458; 25143; 35746; 21333; 21495]%N ++ runes_of_ascii "`,
-    char[3] MarketID `" ++ [24066; 22330]%N ++ runes_of_ascii "id`,
-    char[12] SecurityID `" ++ [35777; 21048; 20195; 30721]%N ++ runes_of_ascii "`,
-    char Side `" ++ [20080; 21334; 26041; 21521]%N ++ runes_of_ascii "`,
-    char OrderType `" ++ [35746; 21333; 31867; 22411]%N ++ runes_of_ascii "`,
-    u64 Price `" ++ [20215; 26684]%N ++ runes_of_ascii "`,
-    u32 Qty `" ++ [25968; 37327]%N ++ runes_of_ascii "`,
-    repeat string ExtraInfo `" ++ [38468; 21152; 20449; 24687]%N ++ runes_of_ascii "`,
-    repeat SubOrder {
-        char[16] ClOrdID `" ++ [23376; 35746; 21333; 21495]%N ++ runes_of_ascii "`,
-        u64 Price `" ++ [23376; 35746; 21333; 20215; 26684]%N ++ runes_of_ascii "`,
-        u32 Qty `" ++ [23376; 35746; 21333; 25968; 37327]%N ++ runes_of_ascii "`,
+root packet body {
+    @calculatedFrom(""1"")
+    @lengthOf(int)
+    match float as Z9_ {
+        // packet A { u8 x, }
+        // trailing space 
+        42 : x,
+        ""packet"" : matchKey,
+        """ ++ [28040; 24687]%N ++ runes_of_ascii """ : o,
+        255 : float,
     },
-}
-
-packet RiskControlResponse {
-    string UniqueOrderId `" ++ [21807; 19968; 35746; 21333; 21495]%N ++ runes_of_ascii "`,
-    i32 Status `" ++ [29366; 24577]%N ++ runes_of_ascii "`,
-    string Msg `" ++ [32467; 26524; 20449; 24687]%N ++ runes_of_ascii "`,
-    repeat Detail,
-}
-
-packet Detail {
-    string RuleName `" ++ [35268; 21017; 21517; 31216]%N ++ runes_of_ascii "`,
-    u16 Code `" ++ [21407; 22240; 20195; 30721]%N ++ runes_of_ascii "`,
-}")).
-Eval vm_compute in ("<<<M129>>>" ++ check (runes_of_ascii "packet
-MetaDataX { metadata trueish`" ++ [233]%N ++ runes_of_ascii "`
-//x
-//x
-,// trailing space 
-@calculatedFrom(""`tick`"" )uint8x
-    // c
-    @calculatedFrom(  """ ++ [128512]%N ++ runes_of_ascii """  ) `{ , }`
-    , @calculatedFrom( ""a\""b"" ) // packet A { u8 x, }
-match Packet as
-    body { 3
-    : repeatCount
-,""x y""
-    /// triple
-    :lengthOf// `tick` ""quote"" 'q'
-4294967296 :
-    packetx
-    , [ ""abc""
-, ""// no comment""
-    ,
-""abc"" ,
-""\n"" //	t
-, ""1""
-]: u128 [ 00 , 65535 ,""x y"" ,""{,}""  ]
-: calculatedFrom ,
-    7 :	i8i8  }, u8x ,match int as	matchKey{
-[1 ,""CRC32""]
-    // trailing space 
-    :// @lengthOf(
-asx,	}
-    , @lengthOf( // " ++ [128512]%N ++ runes_of_ascii " emoji
-a1) string x `it's` , repeat // @lengthOf(
-char matchKey  ,
-    // a // b
-    @leftPad // trailing space 
-( )@rightPad ( ) match
-metadata	as  Packet { [ 65535  ] : Header , }, @tag( 255)
-zchar[ 3 ] crc `u8 x,` ,} MetaData
-    rootA // trailing space 
-{
-i8i8	Pad , int8
-packetx `{ , }`
-,
-    int8 stringy,
-    // `tick` ""quote"" 'q'
-    body _x  , body o , }")).
-Eval vm_compute in ("<<<M1794>>>" ++ check (runes_of_ascii "
-// top
-	options 
-
-    // c0
-	{	// c1a
-
-// c1b
-
-LittleEndian  // c2a
-// c2b
-	= 	 // c3a
-	// c3b
-    false// c4a
-// c4b
-;  // c5a
-	  // c5b
-    StringPrefixLenType  // c6
-		=  // c7a
-      // c7b
-    	u16
-; } 	 // c10
-
-  packet	Heartbeat// c12a
-      // c12b
-    { 	 // c13a
-
-// c13b
-		@rightPad
-
-    ( '0' 
-    // c16
-	)  char[7// c19
-] 	 // c20
-  seqNo, // c22a
-	// c22b
-      uint64 // c23a
-    // c23b
-      Tail , // c25a
-// c25b
-  i16 	 // c26
-Flags  // c27a
-	// c27b
-	,	// c28a
-  // c28b
-u16// c29a
-// c29b
-    msgKind
-// c30
-
-,
-    // c31
-  }// c32a
-    // c32b
-  	root // c33
-	  packet	// c34a
-// c34b
-  Reject 	 // c35a
-  // c35b
-	{zchar[
-
-3 	 // c38a
-    // c38b
-  ]	// c39
-  tag7 	 // c40a
-// c40b
-		, 	 // c41
-	repeat// c42a
-    	// c42b
-Heartbeat	, 
-repeat
-	string 
-// c46
-	clOrdID 
-	// c47
-  ,
-// c48
-
-  }
-    // c49
-")).
-Eval vm_compute in ("<<<M1858>>>" ++ check (runes_of_ascii "
-
-  packet charz
-
-{  //	t
-	repeat i64_
-,
-	trueish{
-    repeat
-	_x , 
-repeatCount,repeat
-u16 matchKey
-`
-`
-    , 
-        // " ++ [128512]%N ++ runes_of_ascii " emoji
-		// a // b
-    matchKey
-
-@calculatedFrom(
-
-""a\""b"" )`it's` ,
-
-    }
-
-, 
-@tag(	007
-	) @calculatedFrom(
-	""a\\"" )@tag( 
-3// @lengthOf(
-) f32
-f32a  @lengthOf(
-asx	) `crlf
-line` // packet A { u8 x, }
-
-,
-repeat i8 string_  ,  @lengthOf(  
-      // @lengthOf(
-      Logon
-
-    )
-@lengthOf(
-	x_y_z) @lengthOf(zchar
-	) repeat
-    char[
-    65535
-    ]
-Foo	`" ++ [233]%N ++ runes_of_ascii "` ,
-	@calculatedFrom( 	 //
-
-	""abc""	) trueish @lengthOf(A	) 
-
-// " ++ [27880; 37322]%N ++ runes_of_ascii "
-  // a // b
-
-	,
-    char[
-	0 
-]
-	float  ,
-
-Packet@calculatedFrom(
-    ""a	b""	) 
-, 
-}MetaData
-	Pad
-	{
-char[ 00
-
-    ]
-leftPad 
-,
-u8
-rootA`
-` , 
-//
-  // " ++ [128512]%N ++ runes_of_ascii " emoji
-    	int32 
-a1 `say ""hi""`, 
-Z9_
-float , 	 //x
-	i32
-    Pad
-	,
-
-}
-")).
-Eval vm_compute in ("<<<M1877>>>" ++ check (runes_of_ascii "// top
-  options 	 // c0a
-
-	// c0b
-	{ // c1a
-  	// c1b
-
-FixedStringPadChar
-=// c3
-  '0'
-;}packet  
-      // c7
-	Q 	 // c8
-  {	// c9a
-  // c9b
-zchar[	// c10a
-	// c10b
-4 // c11
-		] 	 // c12
-	z 
-,  // c14
-      @rightPad (// c16
-  '\x00'
-
-) // c18a
-    // c18b
-      char[
-3	// c20a
-	// c20b
-	]
-// c21
-n  , 
-        // c23
-	char[ 
-	    // c24
-      5
-	    // c25
-	]	// c26
-    d // c27
-  ,
-} 	 // c29a
-    // c29b
-	  root
-    // c30
-packet R
-	    // c32
-	{// c33
-    	Q
-, 	 // c35a
-    // c35b
-  zchar[ 8 	 // c37
-	]// c38
-    	top
-    , // c40a
-	  // c40b
-  	repeat
-        // c41
-	zchar[ 
-
-// c42
-    2
-    // c43
-
-]// c44a
-    // c44b
-zs 
-      // c45
-  ,	// c46a
-  // c46b
-    	}  // c47
- 
-")).
-Eval vm_compute in ("<<<M164>>>" ++ check (runes_of_ascii "//x
-packet x { @lengthOf(
-string_ )
-// `tick` ""quote"" 'q'
-// trailing space 
-msg_type{
-int // a // b
-@lengthOf( chars
-    )
-//x
-// " ++ [27880; 37322]%N ++ runes_of_ascii "
-`" ++ [28040; 24687; 31867; 22411]%N ++ runes_of_ascii "` , int`a\`  , }
-    ,uint32 chars  @calculatedFrom(
-""`tick`""
-    )
-    `
-` , @lengthOf( packetx // trailing space 
-)
-match
-    metadata as x_y_z
-{ 65535	: x ,007
-// `tick` ""quote"" 'q'
-// " ++ [128512]%N ++ runes_of_ascii " emoji
-: u [ 7 ,
-""// no comment""	,  """ ++ [28040; 24687]%N ++ runes_of_ascii """] :x ""a\\""
-: MetaDataX,0123456789 : lengthOf
-10 :
-//
-// `tick` ""quote"" 'q'
-float  }
-    ,
-    u16 Logon@calculatedFrom(""x y"") `tab	here`
-//	t
-//
-,@lengthOf(Foo ) zchar /// triple
-, }  packet
-    tag { } root packet
-x_y_z{ } MetaData int {
-    string
-A `" ++ [233]%N ++ runes_of_ascii "` ,
-}
-")).
-Eval vm_compute in ("<<<M1912>>>" ++ check (runes_of_ascii "
-packet Header {
-
-    char[
-    10	] A 
-`it's`
-
-,@calculatedFrom( """ ++ [28040; 24687]%N ++ runes_of_ascii """ )
-
-    calculatedFrom // a // b
-  @lengthOf(
-
-    zchar
-)  `tab	here`
-    , 
-u32 BodyLength,
-
-@lengthOf(
-
-    stringy )	//
-@rightPad
-	(
-
-    ' '
-)
-
-@tag(
-    0123456789 
-)
-body
-
-    {
-
-match
-i8i8 as
-
-    Foo 
-{  [  7,
-    ""CRC32""
-] :
-options1 ,
-	[""a\""b""
-
-,
-	""" ++ [128512]%N ++ runes_of_ascii """ ,  ""it's"",
-""a	b"" ,
-""// no comment"" 
-,	""it's"", 7 
-, ""abc"" ] :
-	As 
-,
-	1
-    :_x  
-      // " ++ [128512]%N ++ runes_of_ascii " emoji
-//
-	} ,
-
-repeat
-	uint8x
-
-    {crc @calculatedFrom(
-    ""a\\"")
-    ,	}	,repeat
-i8 tag, 	 // " ++ [128512]%N ++ runes_of_ascii " emoji
-    	},}")).
-Eval vm_compute in ("<<<M1735>>>" ++ check (runes_of_ascii "options {
-    ArrayPrefixLenType = u64;
-    FixedStringPadFromLeft = true;
-    FixedStringPadChar = '0';
-}
-
-packet Quote {
-}
-
-packet Ack {
-    repeat InNote66 {
-        u8 pad0,
+    @tag(0123456789)
+    match calculatedFrom as trueish {
+        [""packet"", ""`tick`"", """ ++ [233]%N ++ runes_of_ascii "t" ++ [233]%N ++ runes_of_ascii """] : MetaDataX,
+        4294967296 : trueish,
+        3 : i64_,
+        0123456789 : f32a,
+        [
+            7, 10, ""CRC32"", ""x y"", ""\n"",
+            ""CRC32"", ""`tick`""
+        ] : body,
     },
-}
-
-packet Reject {
-}
-
-root packet Order {
-    Quote,
-    repeat Reject,
-    string venue,
-    string seqNo,
-    uint32 Ref,
-    u16 lastPx,
-    u32 clOrdID @lengthOf(Body),
-    match lastPx as Body {
-        190 : Reject,
-        186 : Quote,
-        22 : Ack,
+    char[1] Foo,
+    @rightPad(' ')
+    @calculatedFrom(""a	b"")
+    repeat string_ {
+        repeat Logon,
+        Z9_ i8i8,
+        match Z9_ as A {
+            [42] : Logon,
+            [
+                1, 4294967296, 0, ""CRC32"", ""a\""b"",
+                ""\" ++ [233]%N ++ runes_of_ascii """
+            ] : roots,
+            ""a\""b"" : MetaDataX,
+            255 : _x,
+            65535 : rootA,
+        },
+        match _x as Foo {
+            [
+                255, """ ++ [28040; 24687]%N ++ runes_of_ascii """, ""CRC32"",
+                """ ++ [233]%N ++ runes_of_ascii "t" ++ [233]%N ++ runes_of_ascii """, ""abc""
+            ] : len,
+            ""a\\"" : Pad,
+            0 : falsey,
+            3 : u128,
+        },// a // b
     },
-    u16 Flags @calculatedFrom(""CRC32""),
+    repeat options1 int `{ , }`,
 }")).
-Eval vm_compute in ("<<<M140>>>" ++ check (runes_of_ascii "
-root packet int{	repeat
-    float tag , char[] roots
-, @lengthOf( repeatCount ) @lengthOf( // packet A { u8 x, }
-rootA)
-uint16 o
-    `tab	here` ,
-    //	t
-    i16 Pad `line1
-line2` , Pad{match Pad as
-    _x
-{ [00]
-:
-    Z9_
-, } ,} , repeat zchar calculatedFrom`a\` ,	f64 // @lengthOf(
-charz
-    //x
-    ,Pad
-    Foo,@calculatedFrom(
-    """ ++ [28040; 24687]%N ++ runes_of_ascii """ )
-    charz
-    @lengthOf( charz ), @lengthOf(
-    rootA ) match o
-as body {00 :
-x_y_z// " ++ [128512]%N ++ runes_of_ascii " emoji
-} ,}
-")).
-Eval vm_compute in ("<<<M1382>>>" ++ check (runes_of_ascii "
-options
-    {LittleEndian
-
-=
-	false
-
-;
-
-StringPrefixLenType =u8
-
-    ;ArrayPrefixLenType 
-=u64;
-	FixedStringPadFromLeft=
-    false
-; FixedStringPadChar= ' '  ;}
-    packet  Reject {  repeat
-	char[4  ]seqNo,string
-
-Px
-    , }
-    root
-	packet Trade 
-{@rightPad (
-'0'
-    )char[
-2 ]msgKind,
-
-repeat f64
-price
-,
-InAcct79 {
-
-    repeat Reject
-, zchar[
-
-    7	] 
-OrderId
-
-    , },  Reject ,
-}")).
-Eval vm_compute in ("<<<M114>>>" ++ check (runes_of_ascii "packet
-a1 {@calculatedFrom(""`tick`"" ) uint32 charz	`crlf
-line` ,
-// c
-//x
-a1 `tab	here`, }
-    options
-    {
-// " ++ [27880; 37322]%N ++ runes_of_ascii "
-// " ++ [128512]%N ++ runes_of_ascii " emoji
-stringy =
+Eval vm_compute in ("<<<M324>>>" ++ check (runes_of_ascii "MetaData Pad { char[] Packet , f32a i64_
+    `tab	here`
 // c
 // a // b
-255 ;
-    metadata =	4294967296 pack
-    = /// triple
-string	; crc= string
-    ; }  root  packet
-crc	{ @tag(  42  )
-@calculatedFrom( ""abc""  )
-@rightPad ( '0'
-) u128 u8x
-/// triple
+,
+} root packet
+    As { @calculatedFrom(""CRC32""	)@calculatedFrom(  ""1""  ) @calculatedFrom( ""// no comment""
+// a // b
+//
+)	As
+As `say ""hi""` , Foo  msg_type , calculatedFrom
+@calculatedFrom( ""\n"" ) , zchar {	zchar[ 7 ] charz // `tick` ""quote"" 'q'
+@calculatedFrom(""x y"" )
+    , Z9_
+    `{ , }` , repeat int { zchar[ 3
+] i8i8
+    @lengthOf( chars )
+,
+match zchar as
+    o {1 : //
+u128	,
+    0
+:
+// trailing space 
 //x
-,@lengthOf(len) uint16 int, }
-")).
-Eval vm_compute in ("<<<M1910>>>" ++ check (runes_of_ascii "
+stringy
+, 42
+: charz""x y"": a1 3 : Header ,
+4294967296 : o } , repeat
+Header `two words`, match u8x  as u8x
+{
+[ 10] : pack ,	1 :
+BodyLength
+//
+// " ++ [27880; 37322]%N ++ runes_of_ascii "
+0 : MetaDataX
+,42
+:  calculatedFrom },	} /// triple
+, } , // " ++ [27880; 37322]%N ++ runes_of_ascii "
+}
+// `tick` ""quote"" 'q'
+/// triple
+packet
+    i64_ { }
+    root packet x { Header
+{char[ /// triple
+0 ] _x `// not a comment`
+    ,
+}
+    ,@lengthOf( A
+)uint32 f32a
+@calculatedFrom( ""abc""
+    )
+// `tick` ""quote"" 'q'
+// " ++ [27880; 37322]%N ++ runes_of_ascii "
+,
+repeat i16 trueish `u8 x,` ,@rightPad	( ' ' )@calculatedFrom( ""a\\"" ) float,
+    repeat char[ 7
+]zchar,
+    @tag( 10 ) repeat
+    //	t
+    a1 falsey	`say ""hi""`,
+    @lengthOf(
+len )repeat zchar[	00
+    // `tick` ""quote"" 'q'
+    ] uint8x ,}
+MetaData  metadata {
+u8 body
+, }")).
+Eval vm_compute in ("<<<M1762>>>" ++ check (runes_of_ascii "packet
+pack
+	{ @lengthOf(
+Foo 
+    // c
+    )asx
+@lengthOf( 
+_x
 
-  root	packet
-chars{ string
-T  `say ""hi""` , @tag( 1
-)
+    )/// triple
+  	, u8
+x_y_z	`two words`,	repeat zchar[ 0]	roots
+`
+` 
+      // `tick` ""quote"" 'q'
+	,
 
-body  {repeat
-    o{
-	f64 Packet
-@calculatedFrom(
-""a\\""  )
+lengthOf  @calculatedFrom( 
+""abc""
+    )
+,@tag(	3 
+) 
+@rightPad ( 
+' ') @calculatedFrom(
+
+    ""1"" 
+  //x
+  // " ++ [27880; 37322]%N ++ runes_of_ascii "
+  ) repeat
+
+uint64 i64_  // trailing space 
+  `say ""hi""`  // @lengthOf(
+
+	,
+@tag(	007 )match
+	roots as  float { ""a	b"":
+    lengthOf  ,  [ 
+1
+,  // @lengthOf(
+
+""\n""
+    ,	""a\""b""
+    , ""\" ++ [233]%N ++ runes_of_ascii """
+    , ""1""
+	,	42
+
+    ] 
+:
+    msg_type
+    ,
+""" ++ [128512]%N ++ runes_of_ascii """:
+	Foo 
+} 
+,
+T //x
+{
+match
+Header as	trueish
+{ [ 
+  // `tick` ""quote"" 'q'
+	// @lengthOf(
+  0
+,
+	3// @lengthOf(
+,
+""{,}"" ,
+	""1""  , 00 
 ,
 
-    } 
-,
-    }
+0123456789,
+""// no comment"" 
+]
+
+:As
+    ,
+    }  ,}
+
+    ,  repeat	char[
+10
+    ]
+
+    o`
+`
+
+    ,@calculatedFrom(  
+      //
+  ""`tick`""//x
+	  ) repeat
+crc { repeatCount o	,
+u8x
+	As 
 ,
 	}
 
-    packet  pack 
-        // @lengthOf(
-// a // b
-{	@tag( 
-4294967296// `tick` ""quote"" 'q'
+, 
+}packet pack {  @calculatedFrom(
+    """ ++ [233]%N ++ runes_of_ascii "t" ++ [233]%N ++ runes_of_ascii """
 
-	)
-repeat
-	char[] 
-Logon 
-// trailing space 
+) 
+u32	f32a,}
 
-	, repeat
-BodyLength
-len	, 
-
-// c
-      }
-
+    MetaData float { u32
+    options1	, }
+	packet
+f32a
+{  }
 ")).
-Eval vm_compute in ("<<<M1277>>>" ++ check (runes_of_ascii "// top
-options
-    // c0
-{
-    // c1
-LittleEndian // c2
-=
-    // c3
-true
-    // c4
-;
-    // c5
+Eval vm_compute in ("<<<M1920>>>" ++ check (runes_of_ascii "packet i8i8 {
+    @tag(0)
+    int32 leftPad `it's`,
+    repeat char[] Header `crlf
+    line`,
+    @calculatedFrom(""\" ++ [233]%N ++ runes_of_ascii """)
+    /// triple
+    repeat uint8 float,
+    @rightPad('\x00')
+    char[] zchar @lengthOf(leftPad) `
+    `,
+    Z9_,
+    @lengthOf(x)
+    match As as tag {
+        ""a	b"" : string_,
+        [
+            10, 7, 255, 3, 42,
+            0123456789, ""1"", """ ++ [128512]%N ++ runes_of_ascii """
+        ] : x_y_z,
+        ""CRC32"" : Z9_,
+        00 : Logon,
+    },
+    @tag(007)
+    o {
+        char Packet @lengthOf(repeatCount),
+    },
+    @lengthOf(pack)
+    float64 rootA `two words`,
+    repeat char[] BodyLength,
 }
-    // c6
-root // c7a
-  // c7b
-packet P // c9a
-  // c9b
-{ u16
+
+packet Z9_ {
+    match As as a1 {
+        //
+        0 : trueish,
+    },
+}
+
+root packet u8x {
+    /// triple
+    // " ++ [128512]%N ++ runes_of_ascii " emoji
+    repeat string Logon `tab	here`,// " ++ [128512]%N ++ runes_of_ascii " emoji
+}
+
+options {
+    _x = ""packet"";
+    f32a = 007
+}
+
+packet i8i8 {
+    @calculatedFrom(""CRC32"")
+    A @lengthOf(a1),
+}")).
+Eval vm_compute in ("<<<M141>>>" ++ check (runes_of_ascii "options // @lengthOf(
+{zchar = char[] Z9_	='0' ;
+} options
+{ asx = char[] }root packet leftPad { T @lengthOf(
+    f32a//
+)
+, } //
+root
+//x
+// @lengthOf(
+packet calculatedFrom {
+u
+    {//	t
+char[] // packet A { u8 x, }
+T `" ++ [233]%N ++ runes_of_ascii "`	,	match stringy /// triple
+as //	t
+chars { [
+    0123456789 ]
+: T ,
+// `tick` ""quote"" 'q'
+// " ++ [27880; 37322]%N ++ runes_of_ascii "
+}	, uint16 a1 @lengthOf( x) , string
+chars `two words` ,
+} , @calculatedFrom(
+    ""x y"")char[]
+// " ++ [27880; 37322]%N ++ runes_of_ascii "
+// " ++ [128512]%N ++ runes_of_ascii " emoji
+body @lengthOf(
+lengthOf )
+    /// triple
+    ,
+    @lengthOf(	A	)rootA
+,	@lengthOf(i64_ ) // packet A { u8 x, }
+repeat f32a { lengthOf
+    // " ++ [128512]%N ++ runes_of_ascii " emoji
+    charz // a // b
+`" ++ [28040; 24687; 31867; 22411]%N ++ runes_of_ascii "`, }
+    // packet A { u8 x, }
+    ,
+match tag as
+//x
+//	t
+T { [
+3
+] : falsey , }	,zchar[
+    00
+    ] charz@lengthOf(
+    Pad
+) ,
+@tag( 3	) lengthOf{ i16 As ,
+} ,
+} root
+packet	body{ }
+")).
+Eval vm_compute in ("<<<M354>>>" ++ check (runes_of_ascii "options {
+} packet u8x{ string uint8x@calculatedFrom(""{,}"" )	`crlf
+line`	,} MetaData falsey{
+    Logon packetx `tab	here` , } root packet o
+{ falsey@calculatedFrom(
+//x
+// " ++ [27880; 37322]%N ++ runes_of_ascii "
+""" ++ [28040; 24687]%N ++ runes_of_ascii """ ) ,	@tag(0123456789) // `tick` ""quote"" 'q'
+char[
+    // `tick` ""quote"" 'q'
+    0123456789
+]	u128@calculatedFrom(
+""{,}"" ) ,
+    @tag(
+    00)
+@lengthOf( stringy
+) @tag( 4294967296
+)  rootA Header,  @lengthOf(As
+    )
+    repeat leftPad `// not a comment`// c
+, i8 leftPad @calculatedFrom( """" ) , @tag( 10
+) zchar[ 007
+] packetx
+@lengthOf( // packet A { u8 x, }
+u8x )	`" ++ [28040; 24687; 31867; 22411]%N ++ runes_of_ascii "` ,
+}packet	options1 {
+//	t
+// trailing space 
+falsey// packet A { u8 x, }
+{ //	t
+zchar[ 3
+    ]// " ++ [128512]%N ++ runes_of_ascii " emoji
+roots
+//
+// a // b
+,
+    u32 Header // c
+,
+} ,// a // b
+}")).
+Eval vm_compute in ("<<<M288>>>" ++ check (runes_of_ascii "// packet A { u8 x, }
+MetaData
+    _x
+{ //
+char[] len
+    ,}options
+// @lengthOf(
+//
+{ repeatCount =""""
+    ; }// c
+root packet chars {
+    char[ 255
+]u8x,	repeat
+/// triple
+// c
+string repeatCount
+`" ++ [28040; 24687; 31867; 22411]%N ++ runes_of_ascii "` ,
+repeat zchar[ 10
+]
+string_ , @tag( // trailing space 
+255
+    ) i8i8{// packet A { u8 x, }
+options1
+calculatedFrom `u8 x,`
+,
+    i64
+len,
+    roots // c
+{ // @lengthOf(
+repeat
+    // a // b
+    i64_ zchar //
+,
+    } ,
+    }
+, match chars as Packet	{
+""a\""b"": Pad
+,[ ""{,}""
+    ]
+:
+calculatedFrom // a // b
+,
+""" ++ [233]%N ++ runes_of_ascii "t" ++ [233]%N ++ runes_of_ascii """
+//x
+// `tick` ""quote"" 'q'
+: uint8x ,[ // packet A { u8 x, }
+""`tick`"" ,0
+    , 42
+    ] : _x[ 0123456789	, ""\" ++ [233]%N ++ runes_of_ascii """
+    ] :
+i8i8,	} ,	}
+")).
+Eval vm_compute in ("<<<M131>>>" ++ check (runes_of_ascii "
+root
+packet
+u8x{ char
+// trailing space 
+// @lengthOf(
+i64_ ,repeat char[1
+] Z9_ , @tag(
+//x
+// " ++ [128512]%N ++ runes_of_ascii " emoji
+42
+) repeat Logon MetaDataX , @leftPad
+    //
+    ( )
+    Foo
+@lengthOf( As
+    ) // " ++ [128512]%N ++ runes_of_ascii " emoji
+, match u128	as //	t
+calculatedFrom {// " ++ [128512]%N ++ runes_of_ascii " emoji
+4294967296:
+BodyLength,
+    3:  A , //
+[ 4294967296//
+, ""packet""] : o	, 65535 : roots } ,
+repeat Pad { uint64 x @calculatedFrom( """ ++ [128512]%N ++ runes_of_ascii """
+    ) , a1 @lengthOf( As)
+    `line1
+line2` ,	repeat string_{repeat uint32 _x	, f32
+MetaDataX `it's`
+    //	t
+    , u64 As  @lengthOf( crc ) , } ,
+    roots , }, zchar[  00] // @lengthOf(
+u128, }
+//	t
+")).
+Eval vm_compute in ("<<<M296>>>" ++ check (runes_of_ascii "MetaData u128
+{  zchar[ 3 ] matchKey	`crlf
+line` //
+, } // packet A { u8 x, }
+options
+{ //x
+} root	packet rootA
+    { @calculatedFrom(
+    ""{,}"" ) repeat u16 len ,repeat body,i8i8 @lengthOf( packetx),metadata int `line1
+line2` ,  uint8x `two words` // c
+, int16 //
+x_y_z
+, repeatCount , Logon {  repeat// trailing space 
+i8 Packet `line1
+line2`
+, } ,}
+options
+{// " ++ [128512]%N ++ runes_of_ascii " emoji
+lengthOf
+//
+// trailing space 
+= ' ' ;
+i64_ = ""{,}"" ; msg_type
+= '0'
+; u=
+// packet A { u8 x, }
+// " ++ [27880; 37322]%N ++ runes_of_ascii "
+i32;_x = ""abc""
+    // packet A { u8 x, }
+    ; }
+")).
+Eval vm_compute in ("<<<M1381>>>" ++ check (runes_of_ascii "packet tag {
+    string matchKey `line1
+    line2`,
+    @tag(0)
+    @calculatedFrom(""1"")
+    @calculatedFrom(""a\""b"")
+    float64 matchKey,
+}
+
+options {
+    crc = true
+    msg_type = true;
+}
+
+packet o {
+    match roots as calculatedFrom {
+        ""// no comment"" : msg_type,
+        ""{,}"" : u128,
+        [65535, 0123456789] : body,
+        // " ++ [128512]%N ++ runes_of_ascii " emoji
+    },
+    @rightPad(' ')
+    repeat string_ i64_,
+    @lengthOf(lengthOf)
+    @tag(255)
+    @tag(00)
+    char[] stringy,
+}")).
+Eval vm_compute in ("<<<M374>>>" ++ check (runes_of_ascii "MetaData BodyLength { zchar[ 65535 ]	As `crlf
+line`
+, u16 charz , body len,
+zchar msg_type ,uint64 metadata
+,}
+root packet //
+matchKey
+    {
+repeat i8i8  `{ , }` ,
+} MetaData a1 { i8i8 Pad`it's`	,
+// trailing space 
+// `tick` ""quote"" 'q'
+int64
+    // " ++ [128512]%N ++ runes_of_ascii " emoji
+    roots `doc` ,
+Foo BodyLength `u8 x,` , } packet	_x
+{ lengthOf
+    {
+pack `" ++ [28040; 24687; 31867; 22411]%N ++ runes_of_ascii "` ,
+string_ // @lengthOf(
+, repeat //
+rootA len , zchar[ 1
+] u8x,} , }
+")).
+Eval vm_compute in ("<<<M1817>>>" ++ check (runes_of_ascii "packet leftPad {
+    @tag(10)
+    @tag(007)
+    @lengthOf(a1)
+    // a // b
+    //
+    repeat metadata,
+}// " ++ [128512]%N ++ runes_of_ascii " emoji
+
+options {
+    lengthOf = """ ++ [128512]%N ++ runes_of_ascii """;
+}
+
+packet T {
+    A {
+        //
+        // `tick` ""quote"" 'q'
+        tag @calculatedFrom(""abc""),
+    },
+    @lengthOf(matchKey)
+    string Header @lengthOf(metadata),
+    leftPad @calculatedFrom(""a\""b"") `crlf
+    line`,
+}")).
+Eval vm_compute in ("<<<M110>>>" ++ check (runes_of_ascii "root // trailing space 
+packet
+leftPad { T
+@lengthOf(A
+) `" ++ [233]%N ++ runes_of_ascii "`,
+    Header
+    @lengthOf( As ) // " ++ [27880; 37322]%N ++ runes_of_ascii "
+,
+string	calculatedFrom `{ , }`
+, @tag( 1) // trailing space 
+u16  x_y_z ,
+@tag( 4294967296
+) x_y_z metadata// " ++ [128512]%N ++ runes_of_ascii " emoji
+,asx { asx `it's`
+    ,} , char[ 65535 ]
+As@lengthOf(
+    Logon ) `a\`
+,@lengthOf(
+Z9_
+    ) string
+BodyLength ,
+}")).
+Eval vm_compute in ("<<<M1268>>>" ++ check (runes_of_ascii "// top
+packet
+    // c0
+B
+    // c1
+{ // c2
+u8
+    // c3
+a // c4
+, string // c6
+s
+    // c7
+, } root // c10
+packet
     // c11
-a // c12
-, // c13
-u32 // c14a
-  // c14b
-Sum
-    // c15
-@calculatedFrom( ""CRC32"" ) // c18a
-  // c18b
+P // c12a
+  // c12b
+{
+    // c13
+u16
+    // c14
+L // c15a
+  // c15b
+@lengthOf( B
+    // c17
+)
+    // c18
 ,
     // c19
-} // c20a
-  // c20b
-")).
-Eval vm_compute in ("<<<M1316>>>" ++ check (runes_of_ascii "  packet
-
-    MDSnapshotZZ	{	u8
-
-a 
-, }  packet
-    OrderACK  { u16
-b, }packet
-	HTTPServerInfo	{
-string
-s
-
-    ,
-}	root
-    packet  FIXMsg
-    { u8
-KType
-,MDSnapshotZZ  , repeat
-
-    OrderACK,  match 
-KType as Body{1 :
-
-HTTPServerInfo  ,	2
-
-:OrderACK	,
-
+B
+    // c20
+, u8 // c22a
+  // c22b
+t
+    // c23
+, // c24
+} ")).
+Eval vm_compute in ("<<<M1465>>>" ++ check (runes_of_ascii "options {
 }
 
-    ,}")).
-Eval vm_compute in ("<<<M1676>>>" ++ check (runes_of_ascii "packet rootA 
-{ 
-}  // trailing space 
-  packet  f32a //	t
-  	{
-	match
-zchar 
-as
-    zchar
-    { 65535:
-    f32a
-,  7 :
-charz 	 // trailing space 
-
-,
-    ""{,}"" 
-	    //	t
-
-//x
-    : Header
-, 42 
-: a1  // packet A { u8 x, }
-,
-
+MetaData string_ {
+    u32 matchKey `u8 x,`,
+    string MetaDataX,
+    uint8 Logon,
+    uint64 options1,
+    char[00] len `tab	here`,
+    u8 options1,
 }
-    ,
-	} ")).
-Eval vm_compute in ("<<<M1558>>>" ++ check (runes_of_ascii "MetaData x_y_z 
-    //x
-      //x
-    	{ int32 
-o
 
-    ,
-zchar[
-65535
-]
-
-    Packet
-,
-	i64_	o , i64
-    o
-`
-` ,
-} 
-options	{
-
-x
-=
-    //x
-    /// triple
-
-u8
-
-;  
-  // " ++ [27880; 37322]%N ++ runes_of_ascii "
 // a // b
-
-}	// trailing space ")).
-Eval vm_compute in ("<<<M1479>>>" ++ check (runes_of_ascii "// top
-options {
-    // c1
-    f32a = 0
-}
-
-// c5
-packet trueish {
-}
-
-MetaData _x {
-    char[0123456789] zchar,
-    string crc,
-    char[1] options1,
-    uint8 repeatCount,
+packet a1 {
+    chars,
+    char[] i64_ @lengthOf(stringy),
+    char T,
+    repeat i8 charz `a\`,
 }")).
-Eval vm_compute in ("<<<M145>>>" ++ check (runes_of_ascii "MetaData //x
-Packet
-/// triple
-// " ++ [27880; 37322]%N ++ runes_of_ascii "
-{	u
-/// triple
-// c
-lengthOf `say ""hi""`
-    , } MetaData metadata {
-    crc chars `crlf
-line` , asx f32a /// triple
-,
-}
+Eval vm_compute in ("<<<M1671>>>" ++ check (runes_of_ascii "options {
+    // c1a
+    // c1b
+    LittleEndian = true;
+}// c6a
 
+// c6b
+packet B {
+    u8 a,// c12a
+    // c12b
+    string s,
+}// c16
+
+root packet P {
+    u16 L @lengthOf(B),// c26a
+    // c26b
+    B,
+    // c28
+    u8 t,// c31
+}// c32a")).
+Eval vm_compute in ("<<<M318>>>" ++ check (runes_of_ascii "options {Z9_ =// trailing space 
+""packet"" ;float = false
+; A =
+' ' }
+    // c
+    MetaData pack
+{ zchar[
+3] leftPad
+,zchar
+    falsey `it's` , char[] repeatCount ,char[ 65535 // " ++ [128512]%N ++ runes_of_ascii " emoji
+] Z9_, }
+//	t
 ")).
+Eval vm_compute in ("<<<M9>>>" ++ check (runes_of_ascii "
+options {body = """ ++ [28040; 24687]%N ++ runes_of_ascii """ }	packet matchKey
+{string_
+// packet A { u8 x, }
+// a // b
+@lengthOf( f32a) ,	int32 int @lengthOf(u128 )	, tag x_y_z ,}packet BodyLength /// triple
+{ }")).
+Eval vm_compute in ("<<<M283>>>" ++ check (runes_of_ascii "
+root packet /// triple
+u8x {}options { o =	zchar[ 1 ]
+    Packet
+    // trailing space 
+    =u32 ; uint8x =""a\\"";
+    /// triple
+    u8x
+=0
+;
+    crc =""\n"" ; }")).
 Eval vm_compute in ("<<<M511>>>" ++ check (runes_of_ascii "packet uint8x
 { match pack
     as msg_type	{
@@ -982,36 +750,83 @@ a1
     { } options {packetx
     = '\x00'	; u128 u128= ""a	b""  ; }
 ")).
-Eval vm_compute in ("<<<M456>>>" ++ check (runes_of_ascii "packet uint8x
+Eval vm_compute in ("<<<M486>>>" ++ check (runes_of_ascii "packet uint8x
 { match pack
     as msg_type	{
     0123456789 :	float
 }
 ,
-} } packet //	t
+} packet //	t
+a1
+    { } options { {packetx
+    = '\x00'	; u128= ""a	b""  ; }
+")).
+Eval vm_compute in ("<<<M402>>>" ++ check (runes_of_ascii "packet uint8x
+match { pack
+    as msg_type	{
+    0123456789 :	float
+}
+,
+} packet //	t
 a1
     { } options {packetx
     = '\x00'	; u128= ""a	b""  ; }
 ")).
-Eval vm_compute in ("<<<M1685>>>" ++ check (runes_of_ascii "
-packet	uint8x	{ match pack as 
-msg_type{0123456789 
-:
-	float
-    } , }
-packet  //	t
-a1
-    {}
+Eval vm_compute in ("<<<M1450>>>" ++ check (runes_of_ascii "
+MetaData
 
-options {	packetx
-	=
+    leftPad
+{chars
+MetaDataX
+,  }
 
-    char	;
+    packet
+repeatCount { char[  // c
+  	255 ] 
+uint8x`" ++ [233]%N ++ runes_of_ascii "` 
+, }
 
-u128= ""a	b"" ; 
-}
+MetaData
+	pack{ As Foo  ,
+
+    }
+
 ")).
-Eval vm_compute in ("<<<M527>>>" ++ check (runes_of_ascii "packet uint8x
+Eval vm_compute in ("<<<M652>>>" ++ check (runes_of_ascii "// @lengthOf(
+packet i8i8 { u128 o , }
+options { MetaDataX = true;
+    BodyLength =""packet"" x_y_z= 007
+crc crc //x
+= ""abc"" ;
+    msg_type =
+i16 }")).
+Eval vm_compute in ("<<<M460>>>" ++ check (runes_of_ascii "packet uint8x
+{ match pack
+    as msg_type	{
+    0123456789 :	float
+}
+,
+}  //	t
+a1
+    { } options {packetx
+    = '\x00'	; u128= ""a	b""  ; }
+")).
+Eval vm_compute in ("<<<M1288>>>" ++ check (runes_of_ascii "// top
+root
+    // c0
+packet P
+    // c2
+{ // c3a
+  // c3b
+repeat // c4
+string // c5
+ss , // c7
+repeat u16 ns ,
+    // c11
+} // c12a
+  // c12b
+")).
+Eval vm_compute in ("<<<M524>>>" ++ check (runes_of_ascii "packet uint8x
 { match pack
     as msg_type	{
     0123456789 :	float
@@ -1020,255 +835,199 @@ Eval vm_compute in ("<<<M527>>>" ++ check (runes_of_ascii "packet uint8x
 } packet //	t
 a1
     { } options {packetx
-    = '\x00'	; u128= ""a	b""  } ;
-")).
-Eval vm_compute in ("<<<M1669>>>" ++ check (runes_of_ascii "
-
-  MetaData leftPad 
-{	chars
-
-MetaDataX	,
-} packet
-repeatCount 
-{	char[
-
-    255  
-  // c
-]uint8x `" ++ [233]%N ++ runes_of_ascii "`
-,} MetaData
-
-pack {
-	As	Foo ,
-
-    }
-
-")).
-Eval vm_compute in ("<<<M691>>>" ++ check (runes_of_ascii "// @lengthOf(
-packet i8i8 { u128 o , }
-options f64 MetaDataX = true;
-    BodyLength =""packet"" x_y_z= 007
-crc //x
-= ""abc"" ;
-    msg_type =
-i16 }")).
-Eval vm_compute in ("<<<M694>>>" ++ check (runes_of_ascii "// @lengthOf(
-packet i8i8 { u128 o , }
-options { MetaDataX = true;
-    = BodyLength""packet"" x_y_z= 007
-crc //x
-= ""abc"" ;
-    msg_type =
-i16 }")).
-Eval vm_compute in ("<<<M646>>>" ++ check (runes_of_ascii "// @lengthOf(
-packet i8i8 { u128 o , }
-options { MetaDataX = true;
-    BodyLength =""packet"" x_y_z= 
-crc //x
-= ""abc"" ;
-    msg_type =
-i16 }")).
-Eval vm_compute in ("<<<M1674>>>" ++ check (runes_of_ascii "packet
-    A
-    {u16  len
-
-@lengthOf(	body)`a
-    b
-  c`  , u32	crc
-@calculatedFrom(
-    ""CRC32"" )
-`a
-    b
-  c`, string
-
-body
-
-,}
-")).
-Eval vm_compute in ("<<<M1573>>>" ++ check (runes_of_ascii "
-
-  packet  A {
-	u16
-
-len @lengthOf(body
-	)
-`tab
-	x`	, u32
-	crc
-    @calculatedFrom(
-""CRC32"" 
-) `tab
-	x`	,  string body , }
-")).
-Eval vm_compute in ("<<<M1144>>>" ++ check (runes_of_ascii "MetaData
-// c
-leftPad { chars MetaDataX , } packet repeatCount { char[ 255 ] uint8x `" ++ [233]%N ++ runes_of_ascii "` , } MetaData pack { As Foo , }")).
-Eval vm_compute in ("<<<M1176>>>" ++ check (runes_of_ascii "MetaData leftPad { chars MetaDataX , } packet repeatCount { char[ 255 ] uint8x `" ++ [233]%N ++ runes_of_ascii "` , }
-// c
-MetaData pack { As Foo , }")).
-Eval vm_compute in ("<<<M1456>>>" ++ check (runes_of_ascii "packet
-A
-{match
-    k
-	as
-
-n
-{
-[  ""a""
-
-,
-	22, ""c c""
-    ,
-4
-,
-""e"" , 66 ]: B
-    2
-:
-
-    C
-
+    = '\x00'	; u128=")).
+Eval vm_compute in ("<<<M1296>>>" ++ check (runes_of_ascii "packet A {
+    u8 a,
 }
-
-    ,}
-
-")).
-Eval vm_compute in ("<<<M1279>>>" ++ check (runes_of_ascii "options {
-    LittleEndian = true;
+packet B {
+    u16 b,
 }
 root packet P {
-    u16 a,
-    u32 Sum @calculatedFrom(""CR\
-C32""),
+    u8 K,
+    match K as M {
+        1 : A,
+        1 : B,
+    },
 }
 ")).
-Eval vm_compute in ("<<<M895>>>" ++ check (runes_of_ascii "packet A {
+Eval vm_compute in ("<<<M173>>>" ++ check (runes_of_ascii "
+options
+    { zchar
+    = 10 ; matchKey = char[ /// triple
+1
+    ]
+u	= ""a\""b"" ;
+    x_y_z =
+    42 ; } MetaData Logon{ }")).
+Eval vm_compute in ("<<<M1160>>>" ++ check (runes_of_ascii "MetaData leftPad { chars MetaDataX , } packet repeatCount
+// c
+{ char[ 255 ] uint8x `" ++ [233]%N ++ runes_of_ascii "` , } MetaData pack { As Foo , }")).
+Eval vm_compute in ("<<<M218>>>" ++ check (runes_of_ascii "
+MetaData
+uint8x { char[ 007
+    ]leftPad ,Pad
+T ,u64 BodyLength , char[] int  ,float
+Z9_ , float32 metadata
+    , }
+")).
+Eval vm_compute in ("<<<M915>>>" ++ check (runes_of_ascii "packet A {
   match k as n {
-    [1, ""bb"", 007, ""d"", 5, ""f"", 7, ""h"", 9, ""j"", 11] : B,
+    [""a"", ""bb"", 007, ""d"", ""e"", 66, ""g"", ""h"", 9, ""j"", ""k"", 12] : B
     2 : C
   },
 }")).
-Eval vm_compute in ("<<<M554>>>" ++ check (runes_of_ascii "
-packet packet
-    asx {match u128 as lengthOf
+Eval vm_compute in ("<<<M1278>>>" ++ check (runes_of_ascii "  options{ 
+LittleEndian =	true
+	; } root	packet
+	P {	u16  a ,u32 
+Sum
+@calculatedFrom(
+""CRC32""  )	, }
+
+")).
+Eval vm_compute in ("<<<M671>>>" ++ check (runes_of_ascii "// @lengthOf(
+packet i8i8 { u128 o , }
+options { MetaDataX = true;
+    BodyLength =""packet"" x_y_z= 0")).
+Eval vm_compute in ("<<<M876>>>" ++ check (runes_of_ascii "packet A {
+  match k as n {
+    [""a"", ""bb"", 007, ""d"", ""e"", 66, ""g"", ""h"", 9] : B
+    2 : C
+  },
+}")).
+Eval vm_compute in ("<<<M578>>>" ++ check (runes_of_ascii "
+packet
+    asx {match u128 as as lengthOf
 {
 //	t
 // `tick` ""quote"" 'q'
 255 : x ,
     } ,	}")).
-Eval vm_compute in ("<<<M887>>>" ++ check (runes_of_ascii "packet A {
-  match k as n {
-    [1, 22, ""c c"", 4, 5, ""f"", 7, 8, ""i"", 10] : B
-    2 : C
-  },
-}")).
-Eval vm_compute in ("<<<M229>>>" ++ check (runes_of_ascii "// a // b
-options{
-Foo
-= '\x00'
-    pack
-= zchar[ 65535]
-// " ++ [128512]%N ++ runes_of_ascii " emoji
-//x
-;	int = ""\n"" ;	}
-")).
-Eval vm_compute in ("<<<M859>>>" ++ check (runes_of_ascii "packet A {
-  match k as n {
-    [""a"", 22, ""c c"", 4, ""e"", 66, ""g"", 8] : B
-    2 : C
-  },
-}")).
-Eval vm_compute in ("<<<M829>>>" ++ check (runes_of_ascii "packet A {
-  match k as n {
-    [""a"", ""bb"", ""c c"", ""d"", ""e"", ""f""] : B
-    2 : C
-  },
-}")).
-Eval vm_compute in ("<<<M844>>>" ++ check (runes_of_ascii "packet A {
-  match k as n {
-    [1, ""bb"", 007, ""d"", 5, ""f"", 7] : B
-    2 : C
-  },
-}")).
-Eval vm_compute in ("<<<M1252>>>" ++ check (runes_of_ascii "packet Inner {
-    u8 a,
-}
-root packet P {
-    repeat Inner items,
-    u8 x,
-}
-")).
-Eval vm_compute in ("<<<M606>>>" ++ check (runes_of_ascii "
+Eval vm_compute in ("<<<M633>>>" ++ check (runes_of_ascii "
 packet
-    asx {match u128 as lengthOf
+    asx {match u128 as `lengthOf
 {
 //	t
 // `tick` ""quote"" 'q'
-255 :")).
-Eval vm_compute in ("<<<M814>>>" ++ check (runes_of_ascii "packet A {
+255 : x ,
+    } ,	}")).
+Eval vm_compute in ("<<<M562>>>" ++ check (runes_of_ascii "
+packet
+    asx match u128 as lengthOf
+{
+//	t
+// `tick` ""quote"" 'q'
+255 : x ,
+    } ,	}")).
+Eval vm_compute in ("<<<M1745>>>" ++ check (runes_of_ascii "packet
+order_item {
+
+u8
+	a 
+,
+
+} root
+    packet  new_order	{order_item
+,
+u8	x  ,	}
+
+")).
+Eval vm_compute in ("<<<M469>>>" ++ check (runes_of_ascii "packet uint8x
+{ match pack
+    as msg_type	{
+    0123456789 :	float
+}
+,
+} packet")).
+Eval vm_compute in ("<<<M1778>>>" ++ check (runes_of_ascii "// a // b
+options {
+    Foo = '\x00'
+    pack = zchar[65535];
+    int = ""\n"";
+}")).
+Eval vm_compute in ("<<<M1612>>>" ++ check (runes_of_ascii "packet A
+	{ Inner{ 
+u8 
+x`x
+`
+,	Deep {  u8 y
+
+    `x
+`
+    , }
+,}	,
+}
+
+")).
+Eval vm_compute in ("<<<M1887>>>" ++ check (runes_of_ascii "packet A
+{
+
+Inner	{ 
+u8
+x`
+x`  ,Deep {  u8
+
+    y 
+`
+x`
+,	} ,}
+	, }
+")).
+Eval vm_compute in ("<<<M851>>>" ++ check (runes_of_ascii "packet A { Inner { match k as n { [1,22,007,4,5,66,7] : B, }, }, }")).
+Eval vm_compute in ("<<<M783>>>" ++ check (runes_of_ascii "packet A {
   match k as n {
-    [1, 22, 007, 4, 5] : B
+    [1, ""bb""] : B
     2 : C
   },
 }")).
-Eval vm_compute in ("<<<M1280>>>" ++ check (runes_of_ascii "root packet P {
-    u16 a,
-    u32 Sum @calculatedFrom(""CRC32""),
-}
-")).
-Eval vm_compute in ("<<<M1916>>>" ++ check (runes_of_ascii "// a // b
-packet Pad {
-    char[] Z9_ @lengthOf(Pad) `{ , }`,
-}")).
-Eval vm_compute in ("<<<M1091>>>" ++ check (runes_of_ascii "packet A { @leftPad() char[4] x, @rightPad( ) zchar[2] y, }")).
-Eval vm_compute in ("<<<M1242>>>" ++ check (runes_of_ascii "root packet
-    P {
-
-    char
-	c
-    , u8  x 
-,
-
-}
-")).
-Eval vm_compute in ("<<<M1218>>>" ++ check (runes_of_ascii "packet body { i32 f32a `{ , }` , } options {
+Eval vm_compute in ("<<<M1089>>>" ++ check (runes_of_ascii "packet A { // a
+ @tag(1) u8 x, // b
+ // c
+ @tag(2) u8 y, }")).
+Eval vm_compute in ("<<<M1220>>>" ++ check (runes_of_ascii "packet body { i32 f32a `{ , }` , } options { }
 // c
-}")).
-Eval vm_compute in ("<<<M1544>>>" ++ check (runes_of_ascii "options {
-    x = ""{,}""
-    matchKey = true;
-}")).
-Eval vm_compute in ("<<<M1446>>>" ++ check (runes_of_ascii "  packet A {
-u8  x
-
-    `tab
-	x` 
-,
-}
 ")).
-Eval vm_compute in ("<<<M54>>>" ++ check (runes_of_ascii "options
-{ T= '0' ;A= u8 ;
-    } 	 ")).
-Eval vm_compute in ("<<<M1424>>>" ++ check (runes_of_ascii "packet A {
-    u8 x `x
-    `,
-}")).
-Eval vm_compute in ("<<<M941>>>" ++ check (runes_of_ascii "packet A {
-    u8 x `a
+Eval vm_compute in ("<<<M1850>>>" ++ check (runes_of_ascii "packet body {
+    i32 f32a `{ , }`,
+}
 
+options {
+}")).
+Eval vm_compute in ("<<<M429>>>" ++ check (runes_of_ascii "packet uint8x
+{ match pack
+    as msg_type")).
+Eval vm_compute in ("<<<M752>>>" ++ check (runes_of_ascii "repeatCount u32 as false uint64 0 @tag(")).
+Eval vm_compute in ("<<<M424>>>" ++ check (runes_of_ascii "packet uint8x
+{ match pack
+    as")).
+Eval vm_compute in ("<<<M36>>>" ++ check (runes_of_ascii "// c
+packet asx  {} /// triple")).
+Eval vm_compute in ("<<<M917>>>" ++ check (runes_of_ascii "packet A {
+    u8 x `a
 b`,
 }")).
-Eval vm_compute in ("<<<M1084>>>" ++ check (runes_of_ascii "packet A { // a
- u8 x, }")).
-Eval vm_compute in ("<<<M1064>>>" ++ check (runes_of_ascii "packet A {
-}// a// b")).
-Eval vm_compute in ("<<<M1131>>>" ++ check (runes_of_ascii "MetaData
-// c
-u { }")).
-Eval vm_compute in ("<<<M1031>>>" ++ check (runes_of_ascii "packet A {
+Eval vm_compute in ("<<<M1472>>>" ++ check (runes_of_ascii "
+// c" ++ [160]%N ++ runes_of_ascii "
+	packet
+
+A{
 }
-// c" ++ [11]%N)).
-Eval vm_compute in ("<<<M1014>>>" ++ check (runes_of_ascii "packet A {
-}// c" ++ [8233]%N)).
-Eval vm_compute in ("<<<M1763>>>" ++ check (runes_of_ascii "packet f32a {
+
+")).
+Eval vm_compute in ("<<<M1110>>>" ++ check (runes_of_ascii "MetaData tag {
+// c
 }")).
+Eval vm_compute in ("<<<M112>>>" ++ check (runes_of_ascii "packet falsey { }
+")).
+Eval vm_compute in ("<<<M1051>>>" ++ check (runes_of_ascii "packet A {
+}
+// c" ++ [65279]%N)).
+Eval vm_compute in ("<<<M1054>>>" ++ check (runes_of_ascii "packet A {
+}// c" ++ [6158]%N)).
+Eval vm_compute in ("<<<M319>>>" ++ check (runes_of_ascii "packet o
+{
+}
+")).
 Eval vm_compute in ("<<<M990>>>" ++ check (runes_of_ascii "// c" ++ [133]%N)).
-Eval vm_compute in ("<<<M731>>>" ++ check (runes_of_ascii "/")).
+Eval vm_compute in ("<<<M19>>>" ++ check (runes_of_ascii "
+")).
